@@ -326,3 +326,133 @@ pub fn build_doc<D: Decl>(
     let v = BuildWith::<D> { fmt, aux, raws, via_t };
     { let _ = core; <D::Shapes as shapes::ShapeSet>::dispatch::<D, _>(shape, v) }
 }
+
+
+// ------------------------------------------------------------------------------------ in place
+
+/// Outcome of `Deserialize::deserialize_in_place` over a host that already holds valid values.
+pub struct InPlaceResult {
+    /// What the place holds afterwards if the call returned Ok.
+    pub a: Side,
+    /// `Shape<Twin>` read by value through the same deserializer, elements pushed through the
+    /// real constructor.
+    pub expected: Side,
+    /// Violations specific to the in-place path (invariant, detail).
+    pub violations: Vec<(&'static str, String)>,
+    pub ran: bool,
+}
+
+impl InPlaceResult {
+    fn skipped() -> Self {
+        InPlaceResult { a: Side::Err("skipped".into()), expected: Side::Err("skipped".into()), violations: vec![], ran: false }
+    }
+}
+
+struct InPlaceVisitor<'r, D: Decl> {
+    shape: ShapeId,
+    fmt: Format,
+    reader: &'r SimReader,
+    init: D::TwinInner,
+    resubmit: bool,
+}
+
+impl<'r, D: Decl> ShapeVisitor<D> for InPlaceVisitor<'r, D> {
+    type Out = InPlaceResult;
+    fn visit<A, B>(
+        self,
+        build_a: fn(Vec<D>, &Aux) -> A,
+        _build_b: fn(Vec<D::Twin>, &Aux) -> B,
+        split_a: fn(A) -> (Vec<D>, String),
+        split_b: fn(B) -> (Vec<D::Twin>, String),
+        fallthrough: Option<Fallthrough>,
+    ) -> InPlaceResult
+    where
+        A: Serialize + DeserializeOwned,
+        B: Serialize + DeserializeOwned,
+    {
+        if fallthrough.is_some() {
+            // untagged hosts: the by-value differential already covers them; the fall-through
+            // model reads through `codec::de`, whose read pattern differs from `de_in_place`.
+            return InPlaceResult::skipped();
+        }
+        // the existing value: every newtype element holds the same valid value
+        let aux = Aux::fixed();
+        let mut els = Vec::new();
+        for _ in 0..shapes::arity(self.shape, &aux) {
+            match D::lift(self.init.clone()).and_then(D::construct) {
+                Ok(t) => els.push(t),
+                Err(_) => return InPlaceResult::skipped(),
+            }
+        }
+        let mut place = match catch_unwind(AssertUnwindSafe(|| build_a(els, &aux))) {
+            Ok(p) => p,
+            Err(_) => return InPlaceResult::skipped(),
+        };
+        let mut ra = self.reader.clone();
+        let mut rb = self.reader.clone();
+        let fmt = self.fmt;
+        let r = catch_unwind(AssertUnwindSafe(|| codec::de_in_place::<A>(fmt, &mut ra, &mut place)));
+        let expected = match codec::de_like_in_place::<B>(fmt, &mut rb) {
+            Err(e) => Side::Err(format!("twin: {e}")),
+            Ok(h) => {
+                let (tw, aux_b) = split_b(h);
+                match catch_unwind(AssertUnwindSafe(|| construct_all::<D>(tw))) {
+                    Err(p) => Side::Panic(panic_message(&p)),
+                    Ok((Ok(v), ..)) => Side::Ok(v, aux_b),
+                    Ok((Err(e), ..)) => Side::Err(format!("constructor: {e}")),
+                }
+            }
+        };
+        let mut violations = Vec::new();
+        let (els_after, aux_after) = split_a(place);
+        let a = match r {
+            Err(p) => {
+                let m = panic_message(&p);
+                violations.push(("deserialize_does_not_panic", format!("deserialize_in_place panicked: {m}")));
+                Side::Panic(m)
+            }
+            Ok(Ok(())) => {
+                let reprs: Vec<String> = els_after.iter().map(|t| t.inner_ref_repr()).collect();
+                let side = Side::Ok(reprs, aux_after);
+                match (&side, &expected) {
+                    (Side::Ok(av, aa), Side::Ok(ev, ea)) => {
+                        if av != ev || aa != ea {
+                            violations.push(("in_place_result_equals_constructor_result", format!("deserialize_in_place left {av:?} / {aa:?}; the constructor applied to the carried inner values gives {ev:?} / {ea:?}")));
+                        }
+                    }
+                    (Side::Ok(av, _), Side::Err(e)) => violations.push(("in_place_ok_only_if_constructor_accepts", format!("deserialize_in_place returned Ok and left {av:?}, but the carried value does not deserialize or the constructor rejects it: {e}"))),
+                    _ => {}
+                }
+                side
+            }
+            Ok(Err(e)) => {
+                if let Side::Ok(ev, _) = &expected {
+                    violations.push(("in_place_ok_whenever_constructor_accepts", format!("deserialize_in_place failed ({e}) although the document carries inner values the constructor accepts: {ev:?}")));
+                }
+                Side::Err(e)
+            }
+        };
+        // Whatever happened, no newtype element left in the place may be a value the constructor rejects.
+        if self.resubmit && D::HAS_VALIDATION && !matches!(a, Side::Panic(_)) {
+            for t in els_after {
+                let inner = t.into_inner();
+                let shown = D::repr(&inner);
+                if let Ok(Err(e)) = catch_unwind(AssertUnwindSafe(|| D::construct(inner).map(|_| ()))) {
+                    violations.push(("no_rejected_value_left_in_place", format!("after deserialize_in_place ({}) the place holds {shown}, which the constructor rejects: {e}", a.class())));
+                    break;
+                }
+            }
+        }
+        InPlaceResult { a, expected, violations, ran: true }
+    }
+}
+
+/// `resubmit`: also require that every newtype left in the place is accepted by the constructor
+/// (only meaningful where the sanitizer is idempotent).
+pub fn diff_in_place<D: Decl>(shape: ShapeId, fmt: Format, reader: &SimReader, resubmit: bool) -> InPlaceResult {
+    let Some(init) = D::corpus().into_iter().find(|r| D::lift(r.clone()).and_then(D::construct).is_ok()) else {
+        return InPlaceResult::skipped();
+    };
+    let v = InPlaceVisitor::<D> { shape, fmt, reader, init, resubmit };
+    <D::Shapes as shapes::ShapeSet>::dispatch::<D, _>(shape, v)
+}
